@@ -54,6 +54,26 @@ func (r *Config) Curve() curve.Curve {
 	return r.PublicKey.Curve()
 }
 
+// Validate checks that the Config is complete, i.e. that none of the key material
+// produced by a successful keygen or refresh is missing.
+func (r *Config) Validate() error {
+	if r == nil {
+		return errors.New("config: config is nil")
+	}
+	if r.PrivateShare == nil || r.PublicKey == nil || r.VerificationShares == nil {
+		return errors.New("config: key material is missing")
+	}
+	if _, ok := r.VerificationShares.Points[r.ID]; !ok {
+		return errors.New("config: no verification share for own ID")
+	}
+	for j, share := range r.VerificationShares.Points {
+		if share == nil {
+			return fmt.Errorf("config: verification share of party %s is nil", j)
+		}
+	}
+	return nil
+}
+
 // Derive performs an arbitrary derivation of a related key, by adding a scalar.
 //
 // This can support methods like BIP32, but is more general.
@@ -123,6 +143,26 @@ type TaprootConfig struct {
 	//
 	// This will later be used to verify the integrity of the signing protocol.
 	VerificationShares map[party.ID]*curve.Secp256k1Point
+}
+
+// Validate checks that the TaprootConfig is complete, i.e. that none of the key material
+// produced by a successful keygen or refresh is missing.
+func (r *TaprootConfig) Validate() error {
+	if r == nil {
+		return errors.New("config: config is nil")
+	}
+	if r.PrivateShare == nil || len(r.PublicKey) == 0 {
+		return errors.New("config: key material is missing")
+	}
+	if _, ok := r.VerificationShares[r.ID]; !ok {
+		return errors.New("config: no verification share for own ID")
+	}
+	for j, share := range r.VerificationShares {
+		if share == nil {
+			return fmt.Errorf("config: verification share of party %s is nil", j)
+		}
+	}
+	return nil
 }
 
 // Clone creates a deep clone of this struct, and all the values contained inside
